@@ -28,7 +28,8 @@ class NGen(genmod.Gen):
     """genmod.Gen with identifiers drawn also from the nasty pools.  Identifiers stay unique per module
     (asn1c without -fcompound-names needs module-unique identifiers for inline constructed members)."""
     def __init__(self, rng, nasty=0.5, **kw):
-        if kw.get("avoid") is None: kw["avoid"] = genmod.Avoid(negative_default=False)   # negative DEFAULTs are generated (F43 repaired)
+        # negative DEFAULTs (F43 repaired), inline unsigned-long elements (F44 repaired) are generated
+        if kw.get("avoid") is None: kw["avoid"] = genmod.Avoid(negative_default=False, inline_ulong_element=False)
         super().__init__(rng, **kw)
         self.nasty = nasty
         self.used_ids = set()
@@ -87,7 +88,8 @@ def hoist_anonymous(m):
         if "elem" in t:
             el = walk(t["elem"])
             if el["k"] in ("SEQUENCE", "SET", "CHOICE", "ENUMERATED", "SEQUENCE OF", "SET OF") or \
-               (el["k"] in ("INTEGER", "BIT STRING") and el.get("named")):
+               (el["k"] in ("INTEGER", "BIT STRING") and el.get("named")) or \
+               (el["k"] == "INTEGER" and el.get("cons") and genmod.int_repr(el["cons"]) == "ulong"):      # own "Member" descriptor (F44 repaired)
                 state["seen"] += 1
                 if state["seen"] > 1:
                     state["n"] += 1
